@@ -814,6 +814,10 @@ func populateExpectedStreamResponse(testCase *conformancev1.TestCase) error {
 		case conformancev1.StreamType_STREAM_TYPE_FULL_DUPLEX_BIDI_STREAM:
 			// For a full duplex stream, the first request should be echoed back in the first
 			// payload. The second should be echoed back in the second payload, etc. (i.e. a ping pong interaction)
+			// Responses beyond the last request are sent after the client is done and echo nothing.
+			if idx >= len(testCase.Request.RequestMessages) {
+				break
+			}
 			expected.Payloads[idx].RequestInfo = &conformancev1.ConformancePayload_RequestInfo{
 				Requests: []*anypb.Any{testCase.Request.RequestMessages[idx]},
 			}
